@@ -14,7 +14,7 @@ for l in sys.stdin:
     if d.get("Action")=="pass" and d.get("Test"): ok.add(d["Package"]+"::"+d["Test"])
 print("\n".join(sorted(ok)))'; }
 [ -f $BASE ] || passset > $BASE
-CMD=$(python3 -c 'import json,sys; print(json.load(open(sys.argv[1]))["demo_cmd"].replace("<repo root>", sys.argv[2]).replace("<repo>", sys.argv[2]).replace("<worktree>", sys.argv[2]))' "$S/meta.json" "$WT")
+CMD=$(python3 -c 'import json,sys; import re; print(re.sub(r"git checkout[^;&#]*(;|&&|$)", "true \\1", re.sub(r"git apply[^;&#]*(;|&&)", "", json.load(open(sys.argv[1]))["demo_cmd"].split("#")[0])).replace("<repo root>", sys.argv[2]).replace("<repo>", sys.argv[2]).replace("<worktree>", sys.argv[2]))' "$S/meta.json" "$WT")
 clean_out=$(bash -c "$CMD" 2>&1); 
 echo "$clean_out" | grep -q -E '^(FAIL|--- FAIL|panic:)|VIOLATION' && CLEAN=fail || CLEAN=pass
 # a demonstration that did not run at all (shell error, nothing compiled) is not a pass
